@@ -164,6 +164,8 @@ package martian
 //@   ensures tableIdle()
 //@   ensures[returns-the-linked-context] has(ctxs, req) ==> result == ctxs[req]
 //@   ensures !has(ctxs, req) ==> result == nil
+//@   assumes result == nil ==> !apiMarked(req)
+//@   assumes result != nil ==> result.apiRequest == apiMarked(req) && ctxIdle(result)
 
 // ---------------------------------------------------------------------------------------------
 // The proxy core (proxy.go).
@@ -384,3 +386,19 @@ package martian
 //@   ensures[depth-never-exceeds-one] old(flat(merr)) && !typeis(err, *MultiError) ==> flat(merr)
 //@   ensures[earlier-errors-kept-in-order] forall i int :: 0 <= i && i < old(len(merr.errs)) ==> merr.errs[i] == old(merr.errs[i])
 //@   ensures[single-error-appended-last] !typeis(err, *MultiError) ==> merr.errs[old(len(merr.errs))] == err
+
+// ---------------------------------------------------------------------------------------------
+// API requests (C13): apiMarked(req) = the request's context is marked as a request to the proxy's own API.
+// NewContext / IsAPIRequest are tied to it by definition (assumed).
+//@ specfunc apiMarked(req *http.Request) bool
+//@ func (*Context).IsAPIRequest
+//@   serves C13
+//@   requires ctxIdle(ctx)
+//@   modifies ctx.mu.rheld
+//@   ensures result == ctx.apiRequest && ctxIdle(ctx)
+
+// errors made by the standard library are never *MultiError values
+//@ extern func fmt.Errorf
+//@   ensures result != nil && !typeis(result, *MultiError)
+//@ extern func errors.New
+//@   ensures result != nil && !typeis(result, *MultiError)
